@@ -6,9 +6,12 @@ import (
 	"encoding/json"
 	"flag"
 	"fmt"
+	"go/ast"
 	"os"
 	"path/filepath"
+	"sort"
 	"strconv"
+	"strings"
 	"sync"
 	"time"
 
@@ -25,9 +28,38 @@ func main() {
 	explain := flag.String("explain", "", "print a saved violations file")
 	list := flag.Bool("list", false, "list rules")
 	only := flag.String("rule", "", "run only this rule (development)")
+	dumpFuncs := flag.Bool("dump-funcs", false, "write checker/known_funcs.txt from the current tree (development: run on the verified tree only)")
 	flag.Parse()
 	start := time.Now()
 	core.RepoRoot = *repo
+	core.KnownFuncsFile = filepath.Join(*verif, "checker", "known_funcs.txt")
+	if *dumpFuncs {
+		core.KnownFuncsFile = ""
+		mods, err := core.LoadRepo(map[string]bool{"v2": true, "root": true})
+		if err != nil {
+			fmt.Fprintln(os.Stderr, err)
+			os.Exit(2)
+		}
+		var lines []string
+		for name, m := range mods {
+			for _, p := range m.Roots {
+				for _, f := range p.Syntax {
+					for _, d := range f.Decls {
+						if fd, ok := d.(*ast.FuncDecl); ok {
+							lines = append(lines, core.FuncKey(name, m.Rel(p.PkgPath), fd))
+						}
+					}
+				}
+			}
+		}
+		sort.Strings(lines)
+		if err := os.WriteFile(filepath.Join(*verif, "checker", "known_funcs.txt"), []byte("# functions of /repo at the time the rules were confirmed (restlicheck -dump-funcs); see core/fold.go\n"+strings.Join(lines, "\n")+"\n"), 0o644); err != nil {
+			fmt.Fprintln(os.Stderr, err)
+			os.Exit(2)
+		}
+		fmt.Println(len(lines), "functions")
+		return
+	}
 
 	if *explain != "" {
 		b, err := os.ReadFile(*explain)
@@ -137,6 +169,7 @@ func main() {
 	if corpErr != nil {
 		fail(corpErr)
 	}
+	debugSingles(mods)
 	pkgCount := map[string]int{}
 	for n, m := range mods {
 		pkgCount[n] = len(m.Roots)
